@@ -173,6 +173,43 @@ def _check_phot(order, grouping, maskk, fixed, twin=False):
     return None
 
 
+def _bounds_check(order, grouping, bound, off):
+    """xy_bounds: every fitted position stays within the bound of its initial
+    position (a source started `off` pixels from the truth, farther than the
+    bound, must stop at the bound), for every member of every group."""
+    from astropy.table import QTable
+    from photutils.psf import (CircularGaussianPRF, PSFPhotometry,
+                               SourceGrouper)
+    data = _scene(1.0)
+    model = CircularGaussianPRF(fwhm=FWHM)
+    x0 = np.array([TRUTH['x'][i] for i in order], float)
+    y0 = np.array([TRUTH['y'][i] for i in order], float)
+    # start the first two listed sources off the truth, in x and in y
+    x0[0] += off
+    y0[1] -= off
+    init = QTable(dict(x=x0, y=y0))
+    grouper = None
+    if isinstance(grouping, int):
+        init['group_id'] = [PARTS[grouping][i] for i in order]
+    elif grouping == 'grouper':
+        grouper = SourceGrouper(5.0)
+    ph = PSFPhotometry(model, (5, 5), grouper=grouper, aperture_radius=4,
+                       xy_bounds=(bound, bound))
+    with warnings.catch_warnings():
+        warnings.simplefilter('ignore')
+        tbl = ph(data, init_params=init)
+    dx = np.abs(np.asarray(tbl['x_fit']) - x0)
+    dy = np.abs(np.asarray(tbl['y_fit']) - y0)
+    if (dx > bound + 1e-9).any() or (dy > bound + 1e-9).any():
+        r = int(np.argmax(np.maximum(dx, dy)))
+        return (f'row {r}: fitted position ({tbl["x_fit"][r]:.3f}, '
+                f'{tbl["y_fit"][r]:.3f}) is farther than xy_bounds={bound} '
+                f'from its initial position ({x0[r]}, {y0[r]})')
+    if list(tbl['id']) != list(range(1, len(order) + 1)):
+        return f'ids {list(tbl["id"])}'
+    return None
+
+
 def _perm_invariance(grouping, maskk):
     """Per-source results do not depend on the input row order."""
     base, *_ = _run_phot([0, 1, 2, 3, 4], grouping, maskk)
@@ -228,6 +265,8 @@ def _misc_check(what, arg):
                 return (f'source {i} fitted as {got} in order {order} but '
                         f'{ref[i]} in the natural order')
         return None
+    if what == 'bounds':
+        return _bounds_check(*arg)
     if what == 'scale':
         k, grouping = arg
         t1, *_ = _run_phot([0, 1, 2, 3, 4], grouping, 'none')
@@ -303,6 +342,12 @@ def _run_misc(case):
                    list(ctx.choice('order', [(4, 3, 2, 1, 0),
                                              (2, 0, 4, 1, 3),
                                              (1, 3, 0, 2, 4)])))
+        elif what == 'bounds':
+            arg = (list(ctx.choice('order', [(0, 1, 2, 3, 4), (1, 0, 3, 2, 4),
+                                             (3, 4, 0, 2, 1)])),
+                   ctx.choice('grouping', [0, 1, 3, 'grouper', 'none']),
+                   ctx.choice('bound', [0.5, 1.0]),
+                   ctx.choice('off', [1.6, -1.3]))
         elif what == 'scale':
             arg = (ctx.choice('k', [3.5, 1e-3, 250.0, 1e-9]),
                    ctx.choice('grouping', [0, 'grouper', 'none']))
@@ -422,7 +467,8 @@ def cases(tier, seed):
                            masks=['none', 'near', 'row', 'edge'], fixed=True))
     cs.append(dict(kind='book', name='bookkeeping-twin', lo=7, hi=8,
                    masks=['none'], twin=True))
-    for w in ('order-invariance', 'scale', 'iterative', 'iterative-finder'):
+    for w in ('order-invariance', 'scale', 'iterative', 'iterative-finder',
+              'bounds'):
         cs.append(dict(kind='misc', name=f'psf-{w}', what=w))
     cs.append(dict(kind='grouper', name='grouper-2', n=2))
     cs.append(dict(kind='grouper', name='grouper-3', n=3, lat=2))
